@@ -623,12 +623,15 @@ class LoaderBase(ABC):
             **align_kwargs,
         )
 
+        # NOTE: must match the shape that ``model.landscape`` returns.
+        _lds_shape = tuple(
+            2 * int(m * upsample) + 1 if upsample > 1 else 2 * int(m) + 1
+            for m in _max_shifts_px
+        )
         if model.is_multi_templates:
-            task_shape = (model.niter,) + tuple(
-                2 * np.ceil(_max_shifts_px).astype(np.int32) + 1
-            )
+            task_shape = (model.niter,) + _lds_shape
         else:
-            task_shape = tuple(2 * np.ceil(_max_shifts_px).astype(np.int32) + 1)
+            task_shape = _lds_shape
         task_arrays = (
             self.replace(output_shape=model.input_shape)
             .iter_mapping_tasks(
